@@ -71,9 +71,11 @@ def insn_case(ins, regs, words, at):
                 words={str(k): v for k, v in words.items()}, at=at)
 
 
-def check_prog(prog, regs, words, steps):
-    """Whole program, compared after every step."""
-    sim = rv.make_sim(rv.SINGLE, prog, regs, words)
+def check_prog(prog, regs, words, steps, caches=None):
+    """Whole program, compared after every step. caches: (data-cache tuple or None, instruction-cache tuple or None)."""
+    dc = rv.cache_opts(*caches[0]) if caches and caches[0] else None
+    ic = rv.cache_opts(*caches[1]) if caches and caches[1] else None
+    sim = rv.make_sim(rv.SINGLE, prog, regs, words, dcache=dc, icache=ic)
     r, m = rv.ref_state(regs, words)
     pd = {4 * i: ins for i, ins in enumerate(prog)}
     trace = []
@@ -98,8 +100,8 @@ def check_prog(prog, regs, words, steps):
     return exp, bad
 
 
-def prog_case(prog, regs, words, steps):
-    return dict(kind="prog", prog=[list(i) for i in prog], regs={str(k): v for k, v in regs.items()},
+def prog_case(prog, regs, words, steps, caches=None):
+    return dict(kind="prog", caches=caches, prog=[list(i) for i in prog], regs={str(k): v for k, v in regs.items()},
                 words={str(k): v for k, v in words.items()}, steps=steps)
 
 
@@ -111,8 +113,11 @@ def replay(case):
         _e, bad = check_insn(ins, regs, words, case["at"])
         return [(dict(oracle="single-step", op=ins[0], field=f), f"{rv.ins_text(ins)} at {case['at']}: {d}") for f, d in bad]
     prog = [tuple(i) for i in case["prog"]]
-    _e, bad = check_prog(prog, regs, words, case["steps"])
-    return [(dict(oracle="program", field=f), f"[{rv.prog_text(prog)}]: {d}") for f, d in bad]
+    caches = case.get("caches")
+    if caches:
+        caches = tuple(tuple(c) if c else None for c in caches)
+    _e, bad = check_prog(prog, regs, words, case["steps"], caches)
+    return [(dict(oracle="program", field=f, **({"caches": "on"} if caches else {})), f"[{rv.prog_text(prog)}]: {d}") for f, d in bad]
 
 
 # ------------------------------------------------------------------------------------------------
@@ -450,6 +455,39 @@ def prog_shard(shard):
     return p
 
 
+STR_REGS = None
+
+
+def cached_shard(shard):
+    """The ISA semantics do not depend on the memory configuration: every program over the memory alphabet of C03 (loads and
+    stores of every width conflicting in one cache set, a store through a negative address, print-string ecall) in single-cycle
+    mode WITH data / instruction caches switched on, compared with the golden model after every step."""
+    from vf.checks import c02, c03
+    global STR_REGS
+    if STR_REGS is None:
+        STR_REGS = {**c03.PROG_REGS, 17: 4, 10: c03.BASE + 64}
+    length, first = shard
+    A = c03.mem_alphabet()
+    p = Partial()
+    for tail in itertools.product(range(len(A)), repeat=length - 1):
+        idx = (first,) + tail
+        prog = [A[i] for i in idx]
+        # programs with an ecall are also run with a7 = 4 and a0 = a string address preset (a print-string right behind stores)
+        for regs_in in ((c03.PROG_REGS, STR_REGS) if any(i[0] == "ecall" for i in prog) else (c03.PROG_REGS,)):
+            for ci, caches in enumerate(c02.CACHED):
+                exp, bad = check_prog(prog, regs_in, c03.PROG_WORDS, 40, caches)
+                p.evaluations += 1
+                p.counters["single-cycle-with-caches"] += 1
+                if exp.loads + exp.stores > 1 or "print" in exp.events:
+                    p.nontrivial += 1
+                if "print" in exp.events and exp.stores:
+                    p.counters["print-string-behind-a-store-with-caches"] += 1
+                for f, d in bad:
+                    p.violation(dict(oracle="program", field=f, caches="on"), prog_case(prog, regs_in, c03.PROG_WORDS, 40, caches),
+                                f"[{rv.prog_text(prog)}] caches {caches}{' a7=4 a0=string' if regs_in is STR_REGS else ''}: {d}", size=(length, idx, ci))
+    return p
+
+
 def run(ctx):
     seed, thorough = ctx.seed, not ctx.quick
     ctx.rule = ("(a) one instruction executed by one real single-cycle step() from a prepared state, for every mnemonic in scope "
@@ -498,4 +536,10 @@ def run(ctx):
         part = pmap(prog_shard, shards)
         ctx.space(f"programs-{'H30' if big else 'H18'}-len{L}", part, t0, alphabet=len(H), length=L, init_states=nstates,
                   step_horizon=steps, note="H30 spaces count only programs containing at least one extra symbol" if big else "")
+    from vf.checks import c03
+    for L in range(1, (3 if ctx.quick else 4) + 1):
+        t0 = time.time()
+        part = pmap(cached_shard, [(L, f) for f in range(len(c03.mem_alphabet()))])
+        ctx.space(f"single-cycle-with-caches-len{L}", part, t0, length=L, cache_configurations=6)
+    ctx.require("single-cycle-with-caches", "print-string-behind-a-store-with-caches")
     ctx.extra["bounds"] = dict(program_length_H18=3 if ctx.quick else 5, program_length_H30=3 if ctx.quick else 4, step_horizon=steps)
